@@ -1,7 +1,7 @@
 (* C02 — linked instances converge on the shared device tree (partial: the point exchange is
    proved; the recursion of the catch-up is an executable model validated against two real
    linked instances on every run).  Statements only; proofs in Sync/Proofs.v. *)
-From Verif Require Import Base.Bytes Store.GraphCount Store.GraphWalk Store.Model Store.Check Store.ProofsRows Store.ProofsHash Store.ProofsTop Store.Concurrent Sync.Model Sync.Proofs.
+From Verif Require Import Base.Bytes Store.GraphCount Store.GraphWalk Store.Model Store.Check Store.ProofsRows Store.ProofsHash Store.ProofsTop Store.Concurrent Sync.Model Sync.Proofs Sync.ProofsEdge.
 
 (* the two comparison loops of a catch-up pass: for any two row lists (one row per identity,
    normalised keys, a tie in time meaning the same point) both sides end up, for every identity,
@@ -33,6 +33,29 @@ Theorem C02_node_exchange_store :
                               node_rows (s_nodes (snd DU)) id' = node_rows (s_nodes U) id').
 Proof. exact node_exchange_store. Qed.
 Print Assumptions C02_node_exchange_store.
+
+(* the edge-point half of the pass, for a placement (parent, id) that both instances hold and that is not the
+   root of either (the device's own placement is skipped by syncNode): both end with the newer point per
+   identity on that edge; every other edge and all node points are left alone *)
+Theorem C02_edge_exchange_store :
+  forall D U id pl pu t k,
+    side_ok D pl id -> side_ok U pu id -> pl <> [] -> pu <> [] -> id <> str_none -> id <> pl -> id <> pu ->
+    rows_sendable (edge_rows D pl id) -> rows_sendable (edge_rows U pu id) ->
+    (forall t k a b, lookup (edge_rows D pl id) t k = Some a -> lookup (edge_rows U pu id) t k = Some b ->
+                     p_time a = p_time b -> a = b) ->
+    let L := edge_rows D pl id in let R := edge_rows U pu id in
+    let DU := apply_edge_sends D U id pl pu (sync_points L R) in
+    lookup (edge_rows (fst DU) pl id) t k = join (lookup L t k) (lookup R t k) /\
+    lookup (edge_rows (snd DU) pu id) t k = join (lookup L t k) (lookup R t k) /\
+    (forall up down, (up, down) <> (pl, id) -> edge_rows (fst DU) up down = edge_rows D up down) /\
+    (forall up down, (up, down) <> (pu, id) -> edge_rows (snd DU) up down = edge_rows U up down) /\
+    s_nodes (fst DU) = s_nodes D /\ s_nodes (snd DU) = s_nodes U.
+Proof. exact edge_exchange_store. Qed.
+Print Assumptions C02_edge_exchange_store.
+
+(* its hypotheses hold of the example states below (deleted child c of the device) *)
+Example C02_edge_exchange_example : side_ok exD id_dev id_c /\ side_ok exU id_dev id_c.
+Proof. split; [exact side_ok_exD|exact side_ok_exU]. Qed.
 
 (* so the agreed value of each identity is never older than what either side had accepted *)
 Theorem C02_no_lost_write : forall a b, ole a (join a b) /\ ole b (join a b).
